@@ -71,8 +71,19 @@ def execute(stim):
 
     def counting(cls, b, conf):
         fault = conf.get('fault')
+        bases = (cls,)
+        if fault == 'start_base':
+            # the start fails in a base class that comes AFTER the library's add-ons in the method
+            # resolution order: whatever an add-on's start() has set up before it called the next
+            # start() belongs to a block that was never started
+            class FaultyStartBase(edzed.SBlock):
+                def start(self):
+                    err = fire('start', b, True)
+                    rec('start', b=b, ok=False)
+                    raise err
+            bases = (cls, FaultyStartBase)
 
-        class C(cls):
+        class C(*bases):
             def start(self):
                 if fault == 'start':
                     err = fire('start', b, True)
